@@ -254,3 +254,74 @@ Qed.
 Theorem queue_second_growth_head_beyond_size_panics :
   q_run_seed4 (q_new 2) (puts [1; 2; 3; 4] ++ [QTake; QTake; QTake] ++ puts [5; 6; 7; 8]) = None.
 Proof. vm_compute. reflexivity. Qed.
+
+(* ------------------------------------------------------------------ *)
+(* C16-7: Reduce takes a snapshot of the bucket REFERENCES under the read lock and runs the
+   callback after unlocking.  The positions are those of the window when Reduce was called;
+   the contents are read when the callback gets there.  With an Add of another goroutine
+   that rolls the window after the callback has been shown k buckets, the rest is read from
+   the window AFTER the Add: a mixture.  (Sequentially - w1 = w0 - nothing changes.) *)
+Definition rw_reduce_positions (w : rw) (now : Z) : list nat :=
+  let span := rw_span w now in
+  let diff := match span, rignore w with
+              | O, true => (rsize w - 1)%nat
+              | _, _ => (rsize w - span)%nat
+              end in
+  map (fun i => ((roffset w + span + 1 + i) mod rsize w)%nat) (seq 0 diff).
+
+Definition rw_reduce_by_reference (k : nat) (w0 w1 : rw) (now : Z) : list (list Z) :=
+  let ps := rw_reduce_positions w0 now in
+  map (fun p => nth p (rbuckets w0) []) (firstn k ps) ++
+  map (fun p => nth p (rbuckets w1) []) (skipn k ps).
+
+(* without an overlapping Add it is Reduce *)
+Example reduce_by_reference_sequentially :
+  let w := rw_run (rw_new 3 10 0 false) [(0, 1); (10, 2); (20, 3)] in
+  rw_reduce_by_reference 1 w w 20 = rw_reduce w 20.
+Proof. vm_compute. reflexivity. Qed.
+
+(* size 3, interval 10, window [1] [2] [3]; Reduce called at 20 is shown the first bucket;
+   another goroutine adds 10 at time 40 (two buckets rolled: the buckets of 1 and 2 are reset,
+   10 goes where 2 was); the callback goes on: [1] [10] [3] - neither the window before the
+   Add ([1] [2] [3]) nor the one after it ([3] [] [10]): the values of NO run of `size` intervals *)
+Lemma zrange_consecutive : forall lo hi a b l, zrange lo hi = a :: b :: l -> b = a + 1.
+Proof.
+  intros lo hi a b l. unfold zrange. destruct (Z.to_nat (hi - lo + 1)) as [|[|n]]; simpl; intros H; try discriminate.
+  inversion H. Lia.lia.
+Qed.
+
+(* in both histories the value 1 was added in interval 0 and interval 1 holds the value 2: no
+   two consecutive buckets of any Reduce read [1] and then [10] *)
+Lemma no_one_then_ten : forall h, (h = [(0, 1); (10, 2); (20, 3)] \/ h = [(0, 1); (10, 2); (20, 3); (40, 10)]) ->
+  forall a, rw_vals_at 0 10 h a = [1] -> rw_vals_at 0 10 h (a + 1) <> [10].
+Proof.
+  intros h Hh a Ha.
+  assert (a = 0).
+  { destruct Hh; subst h; unfold rw_vals_at, rw_idx in Ha; cbn [filter map fst snd] in Ha;
+      change ((0 - 0) / 10) with 0 in Ha; change ((10 - 0) / 10) with 1 in Ha;
+      change ((20 - 0) / 10) with 2 in Ha; try change ((40 - 0) / 10) with 4 in Ha;
+      (destruct (Z.eqb_spec 0 a) as [E|E]; [symmetry; exact E|]);
+      destruct (1 =? a); destruct (2 =? a); try destruct (4 =? a); cbn [filter map fst snd] in Ha; discriminate. }
+  subst a. destruct Hh; subst h; vm_compute; discriminate.
+Qed.
+
+Theorem reduce_by_reference_mixes_states_refuted :
+  let h := [(0, 1); (10, 2); (20, 3)] in
+  let w0 := rw_run (rw_new 3 10 0 false) h in
+  let w1 := rw_add w0 40 10 in
+  rw_reduce_by_reference 1 w0 w1 20 = [[1]; [10]; [3]] /\
+  rw_reduce w0 20 = [[1]; [2]; [3]] /\ rw_reduce_spec 3 10 0 false h 20 = [[1]; [2]; [3]] /\
+  rw_reduce w1 40 = [[3]; []; [10]] /\ rw_reduce_spec 3 10 0 false (h ++ [(40, 10)]) 40 = [[3]; []; [10]] /\
+  (forall ig now, rw_reduce_spec 3 10 0 ig h now <> [[1]; [10]; [3]]) /\
+  (forall ig now, rw_reduce_spec 3 10 0 ig (h ++ [(40, 10)]) now <> [[1]; [10]; [3]]).
+Proof.
+  cbv zeta. repeat split; try (vm_compute; reflexivity).
+  - intros ig now H. unfold rw_reduce_spec in H.
+    destruct (zrange _ _) as [|a [|b l]] eqn:Hz; try discriminate.
+    apply zrange_consecutive in Hz. subst b. simpl in H. inversion H as [[H1 H2 H3]].
+    revert H2. apply no_one_then_ten; [left; reflexivity|exact H1].
+  - intros ig now H. unfold rw_reduce_spec in H.
+    destruct (zrange _ _) as [|a [|b l]] eqn:Hz; try discriminate.
+    apply zrange_consecutive in Hz. subst b. simpl in H. inversion H as [[H1 H2 H3]].
+    revert H2. apply no_one_then_ten; [right; reflexivity|exact H1].
+Qed.
